@@ -108,6 +108,31 @@ theorem step_St (f : Nat) (hE : PE f) (hV : PV f) : PSt (f + 1) := by
         obtain ⟨h1, h2⟩ := envOkG_bindAll xs ts vs env g henv hg wts hl.1 hl.2
         exact outP_pure _ _ _ _ _ _ hst ⟨hv, h1, h2⟩
       · cases h2
+    · rename_i ms
+      split at h2
+      · cases h2
+      · split at h2
+        · cases h2
+        · split at h2
+          · split at h2
+            · rename_i ts hq
+              cases h2
+              simp only [evalStmt]
+              apply outP_bind lp ret S (fun S' v => VT S' (.multi ms) v) _ _ _ σ (hV lp ret S g env e (.multi ms) σ henv hg hr hst hte)
+              intro v σ1 S hle hst _ hv
+              replace henv := envOk_mono hle henv
+              have wl := wfL_of_multi wte
+              obtain ⟨wts, hmem⟩ := flattenTuple_upper ms ts wl hq
+              obtain ⟨m, hm, hvm⟩ := vt_member hv
+              obtain ⟨es, rfl, hes⟩ := hmem m hm
+              have wes : wfL es = true := by have := wfL_memU wl hm; simpa [wf] using this
+              obtain ⟨vs, rfl, hl⟩ := vt_tuple hvm
+              simp only []
+              have hmt := matchesL_trans _ es ts (wfL_asTypeLG vs hl.2) wes wts hl.1 hes
+              obtain ⟨h1, h2⟩ := envOkG_bindAll xs ts vs env g henv hg wts hmt hl.2
+              exact outP_pure _ _ _ _ _ _ hst ⟨hv, h1, h2⟩
+            · cases h2
+          · cases h2
     all_goals cases h2
   | fndecl x ps rt body =>
     simp only [tySStmt] at ht
@@ -612,7 +637,7 @@ theorem tySStmt_wf (lp : Bool) (ret : Option Ty) (g g' : TEnv) (s : Expr) (t : T
     · split at h2
       · cases h2; exact wte
       · cases h2
-    all_goals cases h2
+    all_goals first | (cases h2; done) | (split at h2 <;> (try split at h2) <;> (try split at h2) <;> (try split at h2) <;> first | (cases h2; exact wte) | cases h2)
   | fndecl x ps rt body =>
     simp only [tySStmt] at h
     split at h
